@@ -303,12 +303,19 @@ def decodeVOP2 (i : Inst) (w : Nat) : Dec4 :=
 
 /-! ### 8-byte formats -/
 
+/-- Address register count of the CDNA3 FLAT decode before the SEG repair (kept for reference). -/
+def decodeFLATAddrCntOld (cdna3 : Bool) (sa : Nat) : Nat :=
+  if cdna3 then (if sa != 0x7F then 1 else 2) else (if sa != 0x7F && sa != 0 then 1 else 2)
+
 def decodeFLAT (cdna3 : Bool) (i : Inst) (lo hi : Nat) : Outcome :=
   let raw := extractBits lo 0 12
   let off0 := if raw &&& (1 <<< 12) != 0 then raw ||| 0xFFFFE000 else raw
   let ab := extractBits hi 0 7
   let sa := extractBits hi 16 22
-  let addrCnt := if cdna3 then (if sa != 0x7F then 1 else 2) else (if sa != 0x7F && sa != 0 then 1 else 2)
+  -- CDNA3: SEG (bits 14:15 of the first dword) 0 is the FLAT segment, which does not use SADDR
+  -- (before the repair every SADDR != 0x7F gave a one-register address: `decodeFLATAddrCntOld`).
+  let seg := extractBits lo 14 15
+  let addrCnt := if cdna3 then (if sa != 0x7F && seg != 0 then 1 else 2) else (if sa != 0x7F && sa != 0 then 1 else 2)
   let db := extractBits hi 24 31
   let tb := extractBits hi 8 15
   let cnt : Nat :=
